@@ -23,7 +23,7 @@ METHOD_NAMES = ["ma", "mb", "mc", "md"]
 CORE_KINDS = [
     "direct", "nested-direct", "constructor", "constructor-inherited-init", "method", "inherited-method",
     "overriding-method", "self-method", "self-inherited-method", "method-on-param", "method-on-returned",
-    "callback-positional", "callback-keyword", "callback-bound-method", "returned-closure", "returned-function",
+    "callback-positional", "callback-keyword", "callback-keyword-only", "callback-kwargs-call", "stored-global", "callback-bound-method", "returned-closure", "returned-function",
     "returned-function-local", "returned-param", "stored-variable", "stored-list", "stored-list-read", "stored-dict",
     "stored-field", "stored-field-self", "stored-class", "callback-constructor", "method-on-field", "method-on-self-field",
     "method-on-returned-self", "stored-list-loop", "stored-dict-loop", "method-on-list-element", "cond-alias", "recursion", "mutual-recursion", "recursive-method",
@@ -31,7 +31,8 @@ CORE_KINDS = [
 EXT_KINDS = [
     "self-dispatch-subclass", "self-dispatch-noinit-subclass", "self-dispatch-explicit-init-subclass",
     "self-dispatch-chained-subclass", "diamond-init", "diamond-class-attr", "super-init", "super-method", "explicit-base-init", "closure-captured", "default-param", "staticmethod",
-    "classmethod", "lambda", "class-attr-method", "diamond-method", "stored-list-append",
+    "classmethod", "lambda", "class-attr-method", "diamond-method", "stored-list-append", "callback-star-args",
+    "callback-kwargs", "callback-star-call",
 ]
 ALL_KINDS = CORE_KINDS + EXT_KINDS
 VIAS = ["local", "from-import", "from-import-pkg", "from-import-rel", "module-attribute", "module-attribute-class", "module-attribute-base",
@@ -338,13 +339,38 @@ class Gen:
         out.append(Line(""))
         return e
 
+    def def_globalfn(self, mod):
+        """function value kept in a module-level variable and called from inside another function"""
+        if self.avoided("stored-global"):
+            return None
+        tmp = Scope(self, mod, len(self.ents), 0, mod.body, None)
+        fs = self.visible(tmp, "func")
+        if not fs:
+            return None
+        fexpr = self.ref(tmp, self.ch.pick(fs), value_use=True)[0]
+        gv = mod.fresh("gv")
+        name = mod.fresh("f")
+        e = self.new_ent(mod, name, "func")
+        out = mod.body
+        out.append(Line("%s = %s" % (gv, fexpr)))
+        out.append(Line(""))
+        out.append(Line("def %s(x):" % name))
+        r = mod.fresh("r")
+        out.append(Line("    %s = %s(x)" % (r, gv), "stored-global", "local"))
+        out.append(Line("    return %s" % r))
+        out.append(Line(""))
+        return e
+
     def def_ho(self, mod):
         """higher-order functions: the call line of the callback is labelled here."""
-        flavour = self.ch.pick(["pos", "pos", "kw", "kw", "bm", "default", "pos2", "cls"])
+        flavour = self.ch.pick(["pos", "pos", "pos", "kw", "kw", "kw", "bm", "bm", "default", "pos2", "cls", "star", "kwargs",
+                                "kwonly", "starcall", "kwcall"])
         if flavour in ("bm", "cls") and self.no_classes:
             flavour = "pos"
         kind = {"pos": "callback-positional", "pos2": "callback-positional", "kw": "callback-keyword",
-                "bm": "callback-bound-method", "default": "default-param", "cls": "callback-constructor"}[flavour]
+                "bm": "callback-bound-method", "default": "default-param", "cls": "callback-constructor",
+                "star": "callback-star-args", "kwargs": "callback-kwargs", "kwonly": "callback-keyword-only",
+                "starcall": "callback-star-call", "kwcall": "callback-kwargs-call"}[flavour]
         if self.avoided(kind):
             flavour, kind = "pos", "callback-positional"
             if self.avoided(kind):
@@ -366,6 +392,14 @@ class Gen:
             out.append(Line("def %s(x, f=%s):" % (name, dflt.name)))
         elif flavour == "pos2":
             out.append(Line("def %s(x, f):" % name))
+        elif flavour == "kwonly":
+            out.append(Line("def %s(x, *, f):" % name))
+        elif flavour == "star":
+            out.append(Line("def %s(x, *fs):" % name))
+            out.append(Line("    f = fs[0]"))
+        elif flavour == "kwargs":
+            out.append(Line("def %s(x, **kw):" % name))
+            out.append(Line("    f = kw[\"cb\"]"))
         else:
             out.append(Line("def %s(f, x):" % name))
         sc = Scope(self, mod, e.idx, 1, out, "x")
@@ -970,7 +1004,21 @@ class Gen:
                     return False
                 fexpr = self.ref(sc, ch.pick(fs), value_use=True)[0]
             a = self.arg(sc)
-            if h.flavour == "kw":
+            if h.flavour in ("starcall", "kwcall"):
+                t = sc.mod.fresh("t")
+                if h.flavour == "starcall":
+                    sc.emit("%s = (%s, %s)" % (t, fexpr, a))
+                    args = "*" + t
+                else:
+                    sc.emit("%s = {\"f\": %s, \"x\": %s}" % (t, fexpr, a))
+                    args = "**" + t
+            elif h.flavour == "kwonly":
+                args = "%s, f=%s" % (a, fexpr)
+            elif h.flavour == "star":
+                args = "%s, %s" % (a, fexpr)
+            elif h.flavour == "kwargs":
+                args = "%s, cb=%s" % (a, fexpr)
+            elif h.flavour == "kw":
                 args = ch.pick(["f=%s, x=%s", "x=%s, f=%s"])
                 args = args % ((fexpr, a) if args.startswith("f=") else (a, fexpr))
             elif h.flavour == "pos2":
@@ -1302,6 +1350,8 @@ class Gen:
                     self.def_class(mod)
                 elif t == "diamond":
                     self.def_diamond(mod)
+                elif t == "globalfn":
+                    self.def_globalfn(mod)
                 elif t == "rec":
                     self.def_rec(mod)
                 elif t == "recv":
@@ -1315,7 +1365,12 @@ class Gen:
             sc = Scope(self, mod, len(self.ents), 0, mod.body, x, at_module_level=True)
             for _ in range(nst):
                 self.stmt(sc)
-        return self.render()
+        case = self.render()
+        # a configured entry method instead of %unit_init: a plain function of the main file
+        cands = [e for e in self.mods[-1].ents if e.typ == "func" and getattr(e, "nested_in", None) is None]
+        if cands and ch.chance(15):
+            case["entry"] = {"name": ch.pick(cands[-2:]).name, "file": "main.py", "arg": ch.int(0, 9)}
+        return case
 
     def render(self):
         files = {}
@@ -1381,7 +1436,7 @@ OBJECT_KINDS = {
 THEMES = {
     "mixed": (
         ["func", "func", "func", "ho", "ho", "factory", "factory", "class", "class", "class", "class", "rec", "recv",
-         "objfactory", "diamond"],
+         "objfactory", "diamond", "globalfn"],
         ["func", "func", "func", "method", "method", "method", "callback", "callback", "callback", "factory",
          "factory", "alias", "list", "dict", "field", "cbclass", "recv", "objfactory", "rec", "rec", "classattr",
          "lambda", "nested", "cond-alias", "wrap-if", "wrap-loop", "wrap-try", "list-loop", "obj-loop"]),
@@ -1391,7 +1446,7 @@ THEMES = {
          "objfactory", "cbclass", "cbclass", "classattr", "callback", "field", "wrap-if", "wrap-loop", "wrap-try",
          "obj-loop", "obj-loop"]),
     "values": (
-        ["func", "func", "func", "ho", "ho", "ho", "factory", "factory", "factory", "class", "rec"],
+        ["func", "func", "func", "ho", "ho", "ho", "ho", "factory", "factory", "factory", "class", "rec", "globalfn"],
         ["func", "callback", "callback", "callback", "factory", "factory", "factory", "alias", "list", "list", "dict",
          "dict", "field", "field", "cond-alias", "cond-alias", "lambda", "nested", "nested", "rec", "wrap-if",
          "wrap-loop", "wrap-try", "list-loop", "list-loop"]),
